@@ -138,7 +138,7 @@ def run(args):
     tier = args.tier
     seed = int(os.environ.get('VERIF_SEED', '0') or 0)
     prop = load_property(pid)
-    spec = build_spec()
+    spec = build_spec(getattr(prop, 'SPEC_PROFILE', None))
     known, fixed = load_known()
     ledger = load_ledger().get(pid, [])
     outdir = os.path.join(HERE, 'out', 'replay', pid)
@@ -189,6 +189,22 @@ def run(args):
     both = (tier == 'thorough')
     ts = time.time()
     results = solve.solve_all(all_vcs, use_cvc5=True, both=both)
+    # second chance, alone and with three times the budget, for obligations that were discharged on the unchanged tree
+    # (ledger) and came back `unknown`: rules out a timeout caused by machine load before anything is reported
+    retry = [i for i, (vc, r) in enumerate(zip(all_vcs, results))
+             if vc.expect == 'unsat' and r['result'] not in ('sat', 'unsat') and clause_name(vc) in ledger]
+    retried = 0
+    if retry and len(retry) <= 64:
+        saved = (solve.Z3_TIMEOUT_MS, solve.CVC5_TIMEOUT_S)
+        solve.Z3_TIMEOUT_MS, solve.CVC5_TIMEOUT_S = saved[0] * 3, saved[1] * 2
+        try:
+            again = solve.solve_all([all_vcs[i] for i in retry], procs=4, use_cvc5=True, both=False)
+        finally:
+            solve.Z3_TIMEOUT_MS, solve.CVC5_TIMEOUT_S = saved
+        for i, r in zip(retry, again):
+            r['reason'] = (r.get('reason') or '') + ' [retried alone with 3x budget]'
+            results[i] = r
+        retried = len(retry)
     solve_time = time.time() - ts
 
     by_clause = {}
@@ -298,7 +314,10 @@ def run(args):
         in_ledger = cn in ledger
         if reproduced:
             violations.append((info, ''))
-        elif solver_says_sat and in_ledger:
+        elif in_ledger and (solver_says_sat or (e['unknown'] and all('[retried' in (r.get('reason') or '')
+                                                                     for vc, r in e['unknown']))):
+            # an obligation discharged on the unchanged tree that the solvers now refute, or can no longer discharge
+            # even alone with three times the budget; the replay file carries the solver output
             violations.append((info, ' no-failing-input-found'))
         else:
             undecided.append({'obligation': cn,
